@@ -25,7 +25,7 @@ CHECKS = {
     "C20": (
         E1,
         "The real DataSourcingActor over the fake microgrid API and a real ChannelRegistry: per plan (two metrics and two namespaces of "
-        "one component with a duplicate and an unknown-component request; two components; one component per category) every "
+        "one component with a duplicate and an unknown-component request; the same subscription with and without a start time; two components; one component per category) every "
         "interleaving of subscription requests and data messages at quiescence, plus injection between loop iterations and "
         "asyncio.wait done-set orders as bounded deviations; every stream subscribed before a message gets it exactly once with the "
         "metric's value and the message's timestamp, never duplicates or reordering, nothing for unknown components.",
@@ -83,7 +83,9 @@ CHECKS = {
         "Every expression tree with up to 3 operator nodes (binary + - * / max min, unary consumption/production, constants, "
         "repeated leaves) built through the Python operator API, and every formula string with up to 4 operators in flat, "
         "singly and doubly parenthesised, redundant-parentheses and no-whitespace forms, run with one timestamp per combination "
-        "of leaf values; emitted values compared with a reference evaluator / an independent precedence-climbing parser.",
+        "of leaf values; emitted values compared with a reference evaluator / an independent precedence-climbing parser; plus every ordered "
+        "pair (thorough: triple) of (formula string, metric) started through LogicalMeter.start_formula on one logical meter, "
+        "every pair of the returned engines composed with each operator, all engines compared.",
         "Lock-step delivery; timestamps with an undefined reference value are left to C13; program size and value menu are the bounds.",
         "DESIGN.md §3 C05",
     ),
@@ -91,7 +93,8 @@ CHECKS = {
         E3 + " (programs x missing-input patterns), executed on the real streaming path under the virtual loop",
         "The C05 programs (plus nested .build() compositions) under 3-4 nones_are_zeros configurations, with one timestamp per "
         "subset of inputs missing in each encoding (None, NaN, +inf, -inf) and all zero/sign vectors (zero divisors, both operand "
-        "orders of min/max): None exactly when the reference says so, missing-as-zero equals 0, exactly one sample per timestamp.",
+        "orders of min/max): None exactly when the reference says so, missing-as-zero equals 0, exactly one sample per timestamp; "
+        "plus every ordered pair of (formula string, metric, nones_are_zeros) started through LogicalMeter.start_formula.",
         "Lock-step delivery; 'configured as zero' = nones_are_zeros on the stream's from_receiver or on the consuming build().",
         "DESIGN.md §3 C13",
     ),
